@@ -219,6 +219,9 @@ def app_from(ns, r, marks=None):
                     marks["invoked"] = marks.get("invoked", 0) + 1
                 if r.get("raise") == "before-start":
                     raise BodyError("app failed before start")
+                if r.get("raise") == "http-exception":
+                    from baize.exceptions import HTTPException
+                    raise HTTPException(404)  # the application aborts with the library's own exception: whoever wraps the app sees it raised
                 if r.get("restart"):
                     # PEP 3333: start_response may be called again with exc_info before any body was sent
                     start_response("200 OK", [("Set-Cookie", "abandoned=1"), ("X-Abandoned", "1")])
@@ -246,6 +249,9 @@ def app_from(ns, r, marks=None):
                     marks["invoked"] = marks.get("invoked", 0) + 1
                 if r.get("raise") == "before-start":
                     raise BodyError("app failed before start")
+                if r.get("raise") == "http-exception":
+                    from baize.exceptions import HTTPException
+                    raise HTTPException(404)
                 hl = [(k.lower().encode("latin-1"), v.encode("latin-1")) for k, v in headers]
                 # the ASGI spec asks for an iterable of pairs: a one-shot iterator is legal
                 await send({"type": "http.response.start", "status": status, "headers": iter(hl) if r.get("headers_as_iterator") else hl})
@@ -400,7 +406,8 @@ def gen_raw(rng):
     hdrs = rng.choice([[], [("Content-Type", "text/plain")], [("Set-Cookie", "a=1"), ("Set-Cookie", "b=2")],
                        [("X-A", "1"), ("X-A", "2"), ("x-b", "3")], [("X-Hop", "1"), ("X-Hop", "1")], [("Set-Cookie", "n=caf\xe9; Path=/"), ("Vary", "Accept")],
                        [("Set-Cookie", "a=\xfc"), ("Set-Cookie", "b=2"), ("vary", "Cookie")], [("Vary", "Accept"), ("Vary", "Accept"), ("Vary", "Origin")], [("Content-Type", "text/plain"), ("Set-Cookie", "a=1; Path=/"), ("Set-Cookie", "b=2; HttpOnly")],
-                       [("X-Tag", ""), ("X-Tag", "b")], [("X-Tag", "a"), ("X-Tag", ""), ("X-Empty", "")]])
+                       [("X-Tag", ""), ("X-Tag", "b")], [("X-Tag", "a"), ("X-Tag", ""), ("X-Empty", "")],
+                       [("Set-Cookie2", "old=style"), ("Set-Cookie", "a=1")], [("Set-Cookie-Policy", "x"), ("X-Set-Cookie", "y=1")]])
     return {"app": "raw", "status": rng.choice([200, 201, 404, 418, 599, 204, 304, 205]), "headers": hdrs, "declare_length": rng.random() < 0.3,
             "chunks": [rng.choice([b"hello", b"world", b"", b"\x00\xff"]) for _ in range(n)],
             "shape": rng.choice(["list", "tuple", "generator", "closing", "plain-iterator"]), "reuse_buffer": rng.random() < 0.2, "one_event": rng.random() < 0.5, "minimal_last": rng.random() < 0.3,
@@ -419,7 +426,7 @@ def make_files(d):
     """small files used by File recipes: (path list)"""
     out = []
     for name, size in (("empty.bin", 0), ("one.txt", 1), ("ten.txt", 10), ("big.bin", 70000), ("ünï.txt", 7), ("page.html", 33), ("ctl\there\x1b.bin", 5),
-                       ("k128.bin", 131072), ("k192.bin", 196608), ("readme.txt.gz", 9), ("data.json.gz", 11), ("dump.gz", 4), ("notes.TXT", 6), ("archive.tar.gz", 8)):
+                       ("k128.bin", 131072), ("k192.bin", 196608), ("readme.txt.gz", 9), ("data.json.gz", 11), ("dump.gz", 4), ("notes.TXT", 6), ("archive.tar.gz", 8), ("LICENSE", 12), ("x.q7z", 3), (".profile", 2)):
         p = os.path.join(d, name)
         with open(p, "wb") as f:
             f.write(bytes((0x80 | (i * 31 % 128)) for i in range(size)))
